@@ -1173,6 +1173,19 @@ func genRepeat(r *rng, tier string) interface{} {
 		}
 		return repeatIn{Expr: &xExpr{K: "batch", Es: outer}, Shared: shared, Ctx: c0, Shell: pick(r, []string{"fish", "export", "elvish"}), N: 40}
 	}
+	if r.chance(8) {
+		// Batch members that each set the same variable - one the Context already defines - on their own copy of the Context
+		// and then read it back: every member reads its own value, whatever the schedule
+		members := []*xExpr{}
+		for i := 0; i < 6+r.intn(10); i++ {
+			members = append(members, &xExpr{K: "pfx", S: itoa(i) + ":", E: &xExpr{K: "withCtx", Edits: []xEdit{{K: "setenv", S: "VERIF_X", V: "member" + itoa(i)}}, E: &xExpr{K: "echo"}}})
+		}
+		c := xCtx{Env: []string{"OTHER=1", "VERIF_X=outer", "LAST=1"}}
+		if r.chance(30) {
+			c.Env = []string{"VERIF_X=outer"}
+		}
+		return repeatIn{Expr: &xExpr{K: "batch", Es: members}, Ctx: c, Shell: pick(r, []string{"export", "fish", "elvish"}), N: 40}
+	}
 	if r.chance(10) {
 		// MultiPartsP: static segments beside placeholders whose callbacks yield the same values; several placeholders at one position
 		ps := []string{"root", "the static root", "{user}", "any user", "{group}/sub", "a group", "x/y", "static x", "{user}/home", "home of a user", "guest", "static guest"}
